@@ -325,6 +325,26 @@ def class_pairs():
     sub = "class B extends A { public constructor() -> B { super(); } public function g() -> int { return %s; } }\n"
     P.append(("private member used in a subclass", "method", base % "" + sub % "this.p" + "function main() -> void { }",
               base % "" + sub % "this.q" + "function main() -> void { }"))
+    # private / protected METHODS, by every route and in several positions
+    mbase = "class A { public constructor() -> A { } private function secret() -> int { return 7; } protected function prot() -> int { return 8; } " \
+            "public function open() -> int { return 9; } %s }\n"
+    sub = "class B extends A { public constructor() -> B { super(); } %s }\n"
+    for pos, body in [("this.m() in a subclass", "public function g() -> int { return this.secret(); }"),
+                      ("other.m() in a subclass", "public function g(B o) -> int { return o.secret(); }"),
+                      ("bare m() in a subclass", "public function g() -> int { return secret(); }"),
+                      ("nested argument in a loop header", "public function g() -> int { int t = 0; for (int i = 0; i < this.secret(); i = i + 1) { t = t + 1; } return t; }"),
+                      ("operand", "public function g() -> int { return 1 + this.secret(); }")]:
+        bad = mbase % "" + sub % body + "function main() -> void { B b = new B(); }"
+        good = mbase % "" + sub % body.replace("secret", "prot") + "function main() -> void { B b = new B(); }"
+        P.append(("private method used in a subclass", pos, bad, good))
+    for pos, use in [("statement", "a.secret();"), ("initialiser", "int v = a.secret();"), ("argument", "echo(a.secret());"), ("protected", "int v = a.prot();")]:
+        bad = mbase % "" + "function main() -> void { A a = new A(); %s }" % use
+        good = mbase % "" + "function main() -> void { A a = new A(); %s }" % use.replace("secret", "open").replace("prot", "open")
+        P.append(("private/protected method called outside its class", pos, bad, good))
+    # a class may use its own private members on any receiver of its hierarchy
+    P.append(("private method used outside its class", "through an unrelated class",
+              mbase % "" + "class C { public constructor() -> C { } public function g(A a) -> int { return a.secret(); } }\nfunction main() -> void { }",
+              mbase % "public function viaSub(B b) -> int { return b.secret() + this.secret(); }" + sub % "" + "function main() -> void { }"))
     # static / abstract instantiation, this/super in static context
     P.append(("instantiating a static class", "initialiser", "static class S { public static int n = 0; }\nfunction main() -> void { S s = new S(); }",
               "static class S { public static int n = 0; }\nfunction main() -> void { echo(S.n); }"))
